@@ -382,8 +382,9 @@ of_status_t	of_2d_parity_set_available_symbols (of_2d_parity_cb_t*	ofcb,
 	{
 		if (encoding_symbols_tab[i] != NULL)
 		{
-			ofcb->encoding_symbols_tab[i] = of_calloc (1, ofcb->encoding_symbol_length);
-			memcpy (ofcb->encoding_symbols_tab[i], encoding_symbols_tab[i], ofcb->encoding_symbol_length);
+			/* use the decode_with_new_symbol function, as the LDPC-Staircase codec does, so that the
+			 * decoder's bookkeeping (equations, ready counters) sees the symbol */
+			of_linear_binary_code_decode_with_new_symbol ((of_linear_binary_code_cb_t*)ofcb, encoding_symbols_tab[i], i);
 		}
 	}
 	OF_EXIT_FUNCTION
